@@ -1274,6 +1274,34 @@ func verifMinimal(kind, ns, name, host, svc string) interface{} {
 	return nil
 }
 
+// verifCrossDelegation: VirtualServer ns1/name delegates /sub to a VirtualServerRoute in ns2 whose subroute carries a policy of its
+// own (kind: rl | rlkey — rate limits whose zones and variables are named per VirtualServer), while a second VirtualServer with the
+// SAME name lives in ns2 and references the same policy. Identifiers derived from "the VirtualServer" must not meet.
+func verifCrossDelegation(ns1, ns2, name, kind string) []interface{} {
+	pol := &conf_v1.Policy{ObjectMeta: metav1.ObjectMeta{Namespace: ns2, Name: "xp-" + kind}}
+	switch kind {
+	case "rlkey":
+		pol.Spec.RateLimit = &conf_v1.RateLimit{Rate: "7r/s", ZoneSize: "10M", Key: "${request_uri}"}
+	default:
+		pol.Spec.RateLimit = &conf_v1.RateLimit{Rate: "5r/s", ZoneSize: "10M", Key: "${binary_remote_addr}"}
+	}
+	host1, host2 := "xd1-"+name+".ex", "xd2-"+name+".ex"
+	vs1 := &conf_v1.VirtualServer{ObjectMeta: metav1.ObjectMeta{Namespace: ns1, Name: name}}
+	vs1.Spec.Host = host1
+	vs1.Spec.Upstreams = []conf_v1.Upstream{{Name: "u", Service: "svc", Port: 80}}
+	vs1.Spec.Routes = []conf_v1.Route{{Path: "/", Action: &conf_v1.Action{Pass: "u"}}, {Path: "/sub", Route: ns2 + "/xr-" + name}}
+	vsr := &conf_v1.VirtualServerRoute{ObjectMeta: metav1.ObjectMeta{Namespace: ns2, Name: "xr-" + name}}
+	vsr.Spec.Host = host1
+	vsr.Spec.Upstreams = []conf_v1.Upstream{{Name: "ru", Service: "svc", Port: 80}}
+	vsr.Spec.Subroutes = []conf_v1.Route{{Path: "/sub/a", Action: &conf_v1.Action{Pass: "ru"}, Policies: []conf_v1.PolicyReference{{Name: pol.Name}}}}
+	vs2 := &conf_v1.VirtualServer{ObjectMeta: metav1.ObjectMeta{Namespace: ns2, Name: name}}
+	vs2.Spec.Host = host2
+	vs2.Spec.Upstreams = []conf_v1.Upstream{{Name: "u", Service: "svc", Port: 80}}
+	vs2.Spec.Policies = []conf_v1.PolicyReference{{Name: pol.Name}}
+	vs2.Spec.Routes = []conf_v1.Route{{Path: "/", Action: &conf_v1.Action{Pass: "u"}}}
+	return []interface{}{pol, vsr, vs1, vs2}
+}
+
 // directives that may stand without an argument
 var verifZeroArg = map[string]bool{"internal": true, "ip_hash": true, "least_conn": true, "ntlm": true, "random": true, "ssl_preread": true,
 	"proxy_protocol": true, "premium": true, "stub_status": true, "sticky": false}
@@ -1461,6 +1489,8 @@ func VerifWf(kv map[string]string) string {
 			if o := verifMinimal(p[1], p[2], p[3], p[4], p[5]); o != nil {
 				objs = append(objs, o)
 			}
+		case len(p) == 5 && p[0] == "xd":
+			objs = append(objs, verifCrossDelegation(p[1], p[2], p[3], p[4])...)
 		}
 	}
 	if kv["deps"] != "nopolicies" {
